@@ -235,6 +235,9 @@ func (c *Client) SentOn(seq uint32) (int, bool) {
 	return i, ok
 }
 
+// ReplyCount returns how many well-formed echoes for seq have arrived.
+func (c *Client) ReplyCount(seq uint32) int { c.mu.Lock(); defer c.mu.Unlock(); return c.got[seq] }
+
 // SetServer makes later datagrams go to another client-facing address of the relay (new epoch).
 func (c *Client) SetServer(a netip.AddrPort) {
 	c.mu.Lock()
